@@ -259,7 +259,7 @@ def set_pkt_logging(
     logger.setLevel(logging.DEBUG)  # must be at least .INFO
 
     # as set_pkt_logging() may be called several times: to avoid duplicates in logs...
-    for handler in logger.handlers:  # dont use logger.hasHandlers() as not propagating
+    for handler in list(logger.handlers):  # a copy: removeHandler() edits that list
         logger.removeHandler(handler)
 
     if file_name:
